@@ -603,3 +603,22 @@ Section JobOpView.
       rewrite <- (job_slice_length i vals j) at 1. apply firstn_all.
   Qed.
 End JobOpView.
+
+(* a finished row: the no-op is offered and every action (offered or not) leaves the row exactly as it is *)
+Lemma fjsp_finished_row_inert cfg i s : done s = true ->
+  maskb cfg i s 0 = true /\ forall a, step cfg i s a = Some s.
+Proof. intros Hd. split; [apply fjsp_finished_noop_offered; exact Hd|]. intros a. apply FJSP_done_stable. exact Hd. Qed.
+
+(* two concrete rows (the instance of Env/FJSP.v in two different states, different actions, one of them finished)
+   through the batched step *)
+Example b_step_example :
+  match run true ex_i (reset ex_i) [1], run true ex_i (reset ex_i) [1; 4; 2] with
+  | Some sa, Some sb =>
+      done sb = true /\
+      b_step true 2 [ {| r_i := ex_i; r_s := sa; r_a := 4 |}; {| r_i := ex_i; r_s := sb; r_a := 0 |};
+                      {| r_i := ex_i; r_s := reset ex_i; r_a := 4 |} ]
+      = Some [ match step true ex_i sa 4 with Some x => x | None => sa end; sb;
+               match step true ex_i (reset ex_i) 4 with Some x => x | None => sb end ]
+  | _, _ => False
+  end.
+Proof. vm_compute. split; reflexivity. Qed.
